@@ -12,6 +12,7 @@
 (*   k    "term" | "empty" | "nt"                                            *)
 (*   cap  capability of the interpreter bound to an "nt" node:               *)
 (*        "plain" (Eval only) | "checker" | "transformer" | "both"           *)
+(*        | "keep" (a transformer that returns the node it was given)         *)
 (*        | "none" (no interpreter bound: a pure grouping node; it cannot be *)
 (*        evaluated, the other passes treat it like "plain")                 *)
 (*   kids ids of the children (greater than i); node 1 is the root.          *)
@@ -36,13 +37,20 @@ FullOrder(tree, list) == IF list THEN PostOrder(tree, 1) \o <<0>> ELSE PostOrder
 
 Take(s, k) == SubSeq(s, 1, IF k < Len(s) THEN k ELSE Len(s))
 
+\* Empty nodes are VALUES (a position): two of them at one position are equal, so a visit log cannot tell them apart; logs
+\* name every empty node -1
+EmptyAs(tree, log) == [i \in 1..Len(log) |-> IF log[i] > 0 /\ tree[log[i]].k = "empty" THEN 0 - 1 ELSE log[i]]
+
 \* ---- Walk: visits in post-order; the callback returns true at the stopK-th visit (0: never) ---
 WalkLog(tree, list, stopK) == IF stopK = 0 THEN FullOrder(tree, list) ELSE Take(FullOrder(tree, list), stopK)
 WalkResult(tree, list, stopK) == stopK > 0 /\ stopK <= Len(FullOrder(tree, list))
 
 \* ---- StaticCheck ---------------------------------------------------------------------
 HasChecker(nd) == nd.k = "nt" /\ nd.cap \in {"checker", "both"}
-HasTransformer(nd) == nd.k = "nt" /\ nd.cap \in {"transformer", "both"}
+\* "transformer" / "both": the transformer REPLACES the node by a new terminal; "keep": the transformer returns the very node
+\* it was given (an identity / in-place transformer) - the node and everything below it stay as they are
+HasTransformer(nd) == nd.k = "nt" /\ nd.cap \in {"transformer", "both", "keep"}
+Replaced(nd) == nd.k = "nt" /\ nd.cap \in {"transformer", "both"}
 \* the checkers run in post-order; the checker of node failAt returns an error (0: none)
 CheckOrder(tree) == SelectSeq(PostOrder(tree, 1), LAMBDA n : HasChecker(tree[n]))
 RECURSIVE UpTo(_, _)
@@ -94,7 +102,8 @@ RenderT(tree, n) ==
       RECURSIVE KS(_)
       KS(i) == IF i > Len(nd.kids) THEN "" ELSE RenderT(tree, nd.kids[i]) \o (IF i < Len(nd.kids) THEN "," ELSE "") \o KS(i + 1)
   IN IF nd.k = "term" THEN "t" \o ToString(n) ELSE IF nd.k = "empty" THEN "e"
-     ELSE IF HasTransformer(nd) THEN "x" \o ToString(n)
+     ELSE IF Replaced(nd) THEN "x" \o ToString(n)
+     ELSE IF nd.cap = "keep" THEN Render(tree, n)
      ELSE "n" \o ToString(n) \o "(" \o KS(1) \o ")"
 
 \* ---- Evaluate ------------------------------------------------------------------------------
@@ -114,7 +123,12 @@ EvalLog(tree, failAt, n) ==   \* <<log, failed>>
 \* ---- parsley.Parse with transformation and static checking enabled (parse.go) ------------------------------------
 \* the tree the parser returned is transformed first; the static check then walks the TRANSFORMED tree (nodes replaced by
 \* their transformer's result are terminals now, their subtrees are gone); the first failure of either pass aborts
-Transformed(tree) == [i \in 1..Len(tree) |-> IF HasTransformer(tree[i]) THEN [k |-> "term", cap |-> "", kids |-> <<>>] ELSE tree[i]]
+RECURSIVE ShieldedFrom(_, _, _)
+ShieldedFrom(tree, n, under) ==      \* the nodes below a "keep" node: no transformer reaches them
+  (IF under THEN {n} ELSE {}) \cup
+  UNION {ShieldedFrom(tree, tree[n].kids[i], under \/ tree[n].cap = "keep") : i \in 1..Len(tree[n].kids)}
+Transformed(tree) == LET sh == ShieldedFrom(tree, 1, FALSE) IN
+  [i \in 1..Len(tree) |-> IF Replaced(tree[i]) /\ i \notin sh THEN [k |-> "term", cap |-> "", kids |-> <<>>] ELSE tree[i]]
 ParseApiLog(tree, tfail, cfail) ==     \* <<transform log, check log, failed>>
   LET tl == TransformLog(tree, tfail, 1) IN
   IF tl[2] THEN <<tl[1], <<>>, TRUE>>
